@@ -457,3 +457,332 @@ Theorem C06_md_insertion_sound_no_reloads : forall t cap idx x,
 Proof. exact md_insertion_sound_no_reloads. Qed.
 
 End C06_multitrip.
+
+(* =============================================================================================================================
+   MULTI-TASK JOBS: the greedy sequential search of eval_multi as a PROGRAM (sub-stream c06_multi).
+   Model: Model/ObjectivesX.v (m_services / m_loop / m_promote / ganalyze: the search modelled for C20's quote, reused) +
+   Model/MultiSearch.v (every InsertionPosition: the start index; the route-level gate of a Multi job; `eval_multi_job`);
+   lemmas: Proofs/MultiSearchP.v.  The real result is no longer only a certificate: the search that produces it is in the model
+   and is compared with the real eval_job_insertion_in_route (verdict, cost, the (index, place) list) on every run. *)
+From VRP Require Import Model.Objectives Model.ObjectivesX Model.MultiSearch Proofs.ObjectivesXP Proofs.MultiSearchP.
+Require Import Coq.Sorting.Sorted.
+
+(* WHAT the search returns (any tour, any job, any matrix, any position): the activities follow one of the declared permutations;
+   each is a declared place / window of its sub-job, accepted by the constraint evaluation on the shadow tour that already holds
+   the earlier ones, at a leg >= the start index and STRICTLY behind the leg of the activity before it; the cost is the
+   route-level estimate + the sum of the activity-level estimates on the shadow tours *)
+Theorem C06_multi_search_result_shape : forall w t subs perms pos kind cost steps,
+  eval_multi_job w t subs perms pos kind = GSuccess cost steps ->
+  (exists sv, In sv (resolve_perms subs perms) /\
+     steps_incr (wdur w) (eval_activity_multi w) (closed w) (insertion_start (closed w) t pos) t sv steps) /\
+  cost = multi_rc w t kind + multi_sum (wdur w) (multi_est w kind) t (map step_of steps).
+Proof. exact eval_multi_job_spec. Qed.
+
+(* SOUNDNESS of the search as a program: whatever it returns as Success - for ALL tours, jobs (any number of sub-jobs, places,
+   windows, permutations), matrices, positions Any / Concrete / Last, both objective kinds - carrying out all its activities
+   (insert_at(index + 1) + schedule refresh, one after another) gives a tour the independent simulation finds feasible: every time
+   window, the shift end, and the load profile with the shipment picked up and delivered (dynamic demand) next to the static
+   demand of the tour *)
+Theorem C06_multi_search_sound : forall w t subs perms pos kind cost steps,
+  t <> [] -> sched_ok (wdur w) t -> (forall d, d_change (a_dem (hd d t)) = 0) ->
+  Forall (fun s => simple_demand (s_dem s)) subs ->
+  feasible (wdur w) (w_veh w) t = true ->
+  eval_multi_job w t subs perms pos kind = GSuccess cost steps ->
+  feasible (wdur w) (w_veh w) (apply_steps (wdur w) t (map step_of steps)) = true.
+Proof. exact eval_multi_job_sound. Qed.
+
+(* WHERE the activities are in the tour with the placement carried out: the job ids follow a declared permutation, the returned
+   indices are strictly increasing and not below the start index, the tour grows by exactly the returned activities, the part up
+   to the start index is untouched, and the k-th returned activity sits at position (its index + 1) - so the sub-jobs are served
+   in the order of the permutation (a pickup listed before its delivery is served before it) *)
+Theorem C06_multi_search_positions : forall w t subs perms pos kind cost steps,
+  eval_multi_job w t subs perms pos kind = GSuccess cost steps ->
+  let st := map step_of steps in
+  let t' := apply_steps (wdur w) t st in
+  let start := insertion_start (closed w) t pos in
+  (exists sv, In sv (resolve_perms subs perms) /\ map (fun s => a_job (snd s)) st = map s_id sv) /\
+  StronglySorted lt (map fst st) /\ Forall (fun s => (start <= fst s)%nat) st /\
+  length t' = (length t + length st)%nat /\
+  (forall i, (i <= start)%nat -> option_map act_core (nth_error t' i) = option_map act_core (nth_error t i)) /\
+  (forall k idx a, nth_error st k = Some (idx, a) -> option_map act_core (nth_error t' (S idx)) = Some (act_core a)).
+Proof. exact eval_multi_job_positions. Qed.
+
+(* the loops of the search terminate (the fuel of the model is never exhausted) *)
+Theorem C06_multi_search_terminates : forall w t subs perms pos kind, eval_multi_job w t subs perms pos kind <> GOutOfFuel.
+Proof. exact eval_multi_job_terminates. Qed.
+
+(* position Any is the search modelled for C20 (Model/ObjectivesX.v geval_multi): one model of eval_multi, not two *)
+Theorem C06_multi_search_any_is_c20_search : forall dur ev est closed rc t perms,
+  geval_multi_at dur ev est closed 0 rc t perms = geval_multi dur ev est closed rc t perms.
+Proof. exact geval_multi_at_zero. Qed.
+
+(* the search is GREEDY: it may report failure although a feasible combination exists (allowed by the property for multi-task
+   jobs).  Witness: tour 0 -> A -> B -> 0 on a line, pickup P cheapest between A and B, behind which the delivery D is late; P in
+   front of A followed by D is feasible for the simulation, but no sequence of the search tries P there *)
+Theorem C06_multi_search_complete_refuted :
+  feasible (wdur miss_world) (w_veh miss_world) miss_tour = true /\
+  (exists code st, eval_multi_job miss_world miss_tour miss_subs [[0; 1]%nat] PAny 0 = GFailure code st) /\
+  feasible (wdur miss_world) (w_veh miss_world) (insert_all miss_tour [(0%nat, miss_P); (1%nat, miss_D)]) = true /\
+  brute_any miss_world miss_tour (resolve_perms miss_subs [[0; 1]%nat]) 0 = true.
+Proof. exact multi_search_misses_feasible_combination. Qed.
+
+(* non-vacuity: a feasible tour with a shipment on board, a pickup-delivery job with two permutations and alternative places, success *)
+Theorem C06_multi_search_nonvacuous :
+  nv_multi_tour <> [] /\ sched_ok (wdur nv_multi_world) nv_multi_tour /\ (forall d, d_change (a_dem (hd d nv_multi_tour)) = 0) /\
+  Forall (fun s => simple_demand (s_dem s)) nv_multi_subs /\
+  feasible (wdur nv_multi_world) (w_veh nv_multi_world) nv_multi_tour = true /\
+  exists cost steps, eval_multi_job nv_multi_world nv_multi_tour nv_multi_subs [[0; 1]%nat; [1; 0]%nat] PAny 0 = GSuccess cost steps /\
+                     length steps = 2%nat.
+Proof. exact multi_search_nonvacuous. Qed.
+
+(* =============================================================================================================================
+   THE TRANSPORT CONSTRAINT OVER NON-TRIVIAL COST PROVIDERS: time-dependent routing and reserved times (sub-stream c06_time).
+   Model: Model/TimeDep.v - update_schedules / update_states / TransportConstraint::evaluate_activity / CostObjective generic in
+   the providers (`durD` = duration at a departure time, `durA` = the answer to TravelTime::Arrival, `edep` / `earr` =
+   estimate_departure / estimate_arrival), Float::MAX absorbing (`addI`, `subI`); TimeAwareMatrixTransportCost (`td_interp`,
+   `td_step`), the reserved-time lookup closure (`rt_fn`), DynamicTransportCost / DynamicActivityCost.
+   Specification: Spec/FeasibleT.v (`sim_t`: the break is taken at its latest start, driving and service are suspended, waiting
+   absorbs it; travel times are those of the departure instant).  Lemmas: Proofs/TimeDepP.v (generic), TimeDepTDP.v, TimeDepRTP.v. *)
+From VRP Require Import Model.TimeDep Spec.FeasibleT Proofs.TimeDepP Proofs.TimeDepTDP Proofs.TimeDepRTP.
+
+(* GENERIC SOUNDNESS of evaluate_activity (ALL tours, matrices, providers): under ten explicit hypotheses that relate the backward
+   view of the providers (Arrival look-up, estimate_arrival) to their forward view (Departure look-up, estimate_departure) on the
+   instants `R` a schedule can reach, an accepted activity at an inner leg keeps the whole tour feasible for the forward pass
+   (every arrival inside its window, no Float::MAX feeding a later stop).  `fin_latest`: the cached latest arrivals behind the
+   insertion point are bounded - without it the statement is false of the code (C06_rt_unbounded_next_refuted) *)
+Theorem C06_generic_eval_sound :
+  forall (durD durA : Z -> Z -> Z -> Z) (edep earr : act -> Z -> Z) (R : Z -> Prop) (WF : act -> Prop),
+  (forall x, R x -> x < INF) ->
+  (forall f t x y, R x -> R y -> x <= y -> fwd durD f t x <= fwd durD f t y) ->
+  (forall f t x, R x -> fwd durD f t x < INF -> R (fwd durD f t x)) ->
+  (forall f t L, 0 <= durA f t L) ->
+  (forall f t x L, R x -> L < INF -> x <= L - durA f t L -> fwd durD f t x <= L) ->
+  (forall a x y, WF a -> R x -> R y -> x <= y -> y <= a_twe a -> edep a y < INF -> edep a x <= edep a y) ->
+  (forall a x, WF a -> R x -> x <= a_twe a -> edep a x < INF -> R (edep a x)) ->
+  (forall a x y0 Ld, WF a -> R x -> R y0 -> y0 <= a_twe a -> edep a y0 < INF -> Ld < INF -> x <= earr a Ld ->
+     edep a x <= Ld \/ edep a x < INF /\ (forall f t, fwd durD f t (edep a x) <= fwd durD f t (edep a y0))) ->
+  (forall a Ld, WF a -> earr a Ld <= a_twe a) ->
+  (forall a x, WF a -> edep a x < INF -> x < INF) ->
+  (forall a arr d x, edep (set_sched a arr d) x = edep a x) ->
+  forall (v : vehicle) (t : list act) (idx : nat) (target : act),
+  (S idx < length t)%nat -> sched_ok_gt durD edep t -> R (a_dep (hd target t)) -> Forall WF (tl t) -> WF target ->
+  fin_latest durA earr (skipn (S idx) t) ->
+  time_feasible_g durD edep t = true ->
+  eval_time_g durD durA edep earr v (nth idx t target) target (skipn (S idx) t) = None ->
+  time_feasible_g durD edep (insert_after t idx target) = true.
+Proof. exact eval_time_g_sound_idx. Qed.
+
+(* ---------------- time-dependent routing ---------------- *)
+(* SOUNDNESS under FIFO (`x <= y -> x + dur x <= y + dur y`) and arrival-consistency (the duration the code finds at the ARRIVAL
+   time L is not smaller than the duration of the departure L - dur L it computes with it): the whole activity-level verdict of the
+   goal [transport; capacity] accepted => the tour with the activity is feasible for the specification's walk with departure-time
+   look-ups (time windows, shift end, load profile).  Any duration function of (from, to, time). *)
+Theorem C06_td_insertion_sound : forall dur : Z -> Z -> Z -> Z,
+  (forall f t x, 0 <= dur f t x) ->
+  (forall f t x y, x <= y -> x + dur f t x <= y + dur f t y) ->
+  (forall f t L, L - dur f t L + dur f t (L - dur f t L) <= L) ->
+  forall (v : vehicle) (t : list act) (idx : nat) (target : act),
+  (S idx < length t)%nat -> sched_ok_gt dur edep_simple t -> a_dep (hd target t) < INF ->
+  Forall wf_act (tl t) -> wf_act target -> fin_latest dur earr_simple (skipn (S idx) t) ->
+  d_change (a_dem (hd target t)) = 0 -> simple_demand (a_dem target) ->
+  time_feasible_g dur edep_simple t = true -> load_feasible (v_cap v) t = true ->
+  eval_activity_g dur dur edep_simple earr_simple v t idx target = None ->
+  feasible_t dur [] v (insert_after t idx target) = true.
+Proof. exact td_insertion_sound. Qed.
+
+(* EXACTNESS of the cached latest arrival (the push-forward test) under the converse hypothesis as well: a tail that is feasible for
+   the way it is reached now is feasible for another departure iff that departure arrives not later than the cached value *)
+Theorem C06_td_latest_arrival_exact : forall dur : Z -> Z -> Z -> Z,
+  (forall f t x, 0 <= dur f t x) ->
+  (forall f t x y, x <= y -> x + dur f t x <= y + dur f t y) ->
+  (forall f t L, L - dur f t L + dur f t (L - dur f t L) <= L) ->
+  (forall f t x L, x + dur f t x <= L -> x <= L - dur f t L) ->
+  forall (r : list act) (a : act) (loc0 dep0 : Z),
+  dep0 < INF -> sim_g dur edep_simple loc0 dep0 (a :: r) = true -> Forall wf_act (a :: r) -> fin_latest dur earr_simple (a :: r) ->
+  forall loc x, x < INF ->
+    (sim_g dur edep_simple loc x (a :: r) = true <-> fwd dur loc (a_loc a) x <= latest_g dur earr_simple (a :: r)).
+Proof. exact td_latest_exact. Qed.
+
+(* the hypotheses are satisfiable: time-independent durations satisfy all three, durations that never decrease in time satisfy
+   FIFO and arrival-consistency (the evaluator is sound for them) *)
+Theorem C06_td_hypotheses_nonvacuous :
+  (forall d : Z -> Z -> Z,
+     (forall f t x y : Z, x <= y -> x + d f t <= y + d f t) /\ (forall f t L : Z, L - d f t + d f t <= L) /\
+     (forall f t x L : Z, x + d f t <= L -> x <= L - d f t)) /\
+  (forall dur : Z -> Z -> Z -> Z,
+     (forall f t x, 0 <= dur f t x) -> (forall f t x y, x <= y -> dur f t x <= dur f t y) ->
+     (forall f t x y, x <= y -> x + dur f t x <= y + dur f t y) /\ (forall f t L, L - dur f t L + dur f t (L - dur f t L) <= L)).
+Proof. exact (conj const_dur_hyps nondecreasing_dur_hyps). Qed.
+
+(* ... and the premises of C06_td_insertion_sound are: durations that grow from 10 to 20 between the times 10 and 20, a closed tour,
+   an accepted candidate *)
+Theorem C06_td_nonvacuous :
+  (forall f t x, 0 <= ramp f t x) /\ (forall f t x y, x <= y -> x + ramp f t x <= y + ramp f t y) /\
+  (forall f t L, (L - ramp f t L) + ramp f t (L - ramp f t L) <= L) /\
+  ramp 0 1 0 <> ramp 0 1 30 /\
+  let t := nv_td_tour in let target := nv_td_target in
+  (S 0 < length t)%nat /\ sched_ok_gt ramp edep_simple t /\ a_dep (hd target t) < INF /\ Forall wf_act (tl t) /\ wf_act target /\
+  fin_latest ramp earr_simple (skipn 1 t) /\ d_change (a_dem (hd target t)) = 0 /\ simple_demand (a_dem target) /\
+  time_feasible_g ramp edep_simple t = true /\ load_feasible (v_cap nv_td_veh) t = true /\
+  eval_activity_g ramp ramp edep_simple earr_simple nv_td_veh t 0 target = None /\
+  sched_out (reschedule_g ramp edep_simple (insert_after t 0 target)) = [(0, 0); (10, 11); (22, 24); (44, 44)].
+Proof. exact td_nonvacuous. Qed.
+
+(* FINDING C06-F7: arrival-consistency is needed, FIFO alone is not enough.  On the modelled TimeAwareMatrixTransportCost (leg 1 -> 2:
+   42 at timestamp 0, 26 at timestamp 32 - slope -1/2, FIFO holds on the instants visited) the evaluator accepts the candidate in
+   front of stop 1 although stop 2 (window end 50) is then reached at 54 (replayed on the real code: corpus/C06/c06_time) *)
+Theorem C06_td_decreasing_refuted :
+  let x := tdw_fifo in let t := tdw_tour x in
+  tw_feasible x t = true /\
+  eval_activity_g (tw_durD x) (tw_durA x) (tw_edep x) (tw_earr x) (w_veh (tw_w x)) t 0 tdw_X = None /\
+  tw_feasible x (insert_after t 0 tdw_X) = false /\
+  sched_out (reschedule_g (tw_durD x) (tw_edep x) (insert_after t 0 tdw_X)) = [(0, 0); (10, 10); (24, 24); (54, 54); (64, 64)].
+Proof. exact td_decreasing_unsound_witness. Qed.
+
+Theorem C06_td_decreasing_refuted_is_fifo :
+  fifo_on (tw_idur tdw_fifo 1 2) (map (fun k : nat => 2 * Z.of_nat k) (seq 0 41)) = true.
+Proof. exact tdw_fifo_leg. Qed.
+
+(* without FIFO: TimeAwareMatrixTransportCost on legal input violates FIFO (60 at timestamp 0, 28 at timestamp 16: leaving at 0
+   arrives at 60, leaving at 16 at 44); the route over the candidate reaches stop 1 EARLIER than the direct way (non-metric static
+   legs), stop 1 is left at 4 instead of 14 and stop 2 reached at 56 > 50 *)
+Theorem C06_td_nonfifo_refuted :
+  let x := tdw_nonfifo in let t := tdw_tour x in
+  tw_feasible x t = true /\
+  eval_activity_g (tw_durD x) (tw_durA x) (tw_edep x) (tw_earr x) (w_veh (tw_w x)) t 0 tdw_X = None /\
+  tw_feasible x (insert_after t 0 tdw_X) = false /\
+  sched_out t = [(0, 0); (14, 14); (46, 46); (56, 56)] /\
+  sched_out (reschedule_g (tw_durD x) (tw_edep x) (insert_after t 0 tdw_X)) = [(0, 0); (2, 2); (4, 4); (56, 56); (66, 66)] /\
+  0 + tw_idur x 1 2 0 = 60 /\ 16 + tw_idur x 1 2 16 = 44.
+Proof. exact td_nonfifo_unsound_witness. Qed.
+
+(* exactness fails for INCREASING durations (10 -> 42): stop 1 may be left at 20 (arrival 50), the cached latest arrival is 8.
+   Conservative only; no finding *)
+Theorem C06_td_latest_arrival_exact_refuted :
+  let x := tdw_incr in let t := tdw_tour x in
+  latest_states_g (tw_durA x) (tw_earr x) t = [0; 8; 50] /\
+  fwd (tw_durD x) 1 2 20 = 50 /\ sim_g (tw_durD x) (tw_edep x) 1 20 (skipn 2 t) = true.
+Proof. exact td_latest_conservative_witness. Qed.
+
+(* ---------------- reserved times (required breaks) ---------------- *)
+(* the lookup closure of create_reserved_times_fn for one reserved time: it answers iff the queried window starts exactly at the
+   reserved time's (latest) start - UNCHECKED - or intersects [e, e + d) exclusively *)
+Theorem C06_rt_lookup_single : forall s e d off a b, a < INF -> e < INF ->
+  rt_fn (mkRT false [mkRS s e d]) off a b = if rt_hit e d a b then Some (s, e, d) else None.
+Proof. exact rt_fn_single. Qed.
+
+(* the forward pass of DynamicTransportCost / DynamicActivityCost (one reserved time [e, e + d), time-independent inner routing)
+   IS the physical simulation: a walk that is feasible for the providers (no Float::MAX feeding a later stop) is feasible for
+   Spec/FeasibleT.v - the model at x and the vehicle at q being at the same instant, or the model at e with the break ahead and
+   the vehicle at e + d.  The last activity does not wait for a window (end activity of a closed tour). *)
+Theorem C06_rt_forward_pass_is_physical : forall (dur : Z -> Z -> Z) (s e d : Z),
+  (forall f t, 0 <= dur f t) -> 0 <= e -> 0 <= d -> e + d < INF ->
+  forall (acts : list act) (loc x q : Z),
+  R1 e d x -> Rel1 e d x q -> Forall (WF1 e d) acts -> ends_free acts ->
+  sim_g (durD_rt (idur dur) (rt1 s e d) 0) (edep_rt (rt1 s e d) 0) loc x acts = true ->
+  sim_t (idur dur) [(e, d)] loc q acts = true.
+Proof. exact rt1_forward_physical. Qed.
+
+(* SOUNDNESS with one reserved time: the activity-level verdict of the goal [transport (DynamicTransportCost, DynamicActivityCost);
+   capacity] accepted at an inner leg of a closed tour whose cached latest arrivals are bounded => the tour with the activity is
+   feasible for the PHYSICAL simulation (break at its latest start, driving / service suspended, waiting absorbs; windows, shift
+   end, load profile).  `R1`: the tour departs outside the reserved time; `WF1`: windows well formed, one tie excluded
+   (C06_rt_tie_witness) *)
+Theorem C06_rt_insertion_sound : forall (dur : Z -> Z -> Z) (s e d : Z) (v : vehicle) (t : list act) (idx : nat) (target : act),
+  (forall f t0, 0 <= dur f t0) -> 0 <= e -> 0 <= d -> e + d < INF ->
+  let durD := durD_rt (idur dur) (rt1 s e d) 0 in let durA := durA_rt (idur dur) (rt1 s e d) 0 in
+  let edep := edep_rt (rt1 s e d) 0 in let earr := earr_rt (rt1 s e d) 0 in
+  (S idx < length t)%nat -> sched_ok_gt durD edep t -> R1 e d (a_dep (hd target t)) ->
+  Forall (WF1 e d) (tl t) -> WF1 e d target -> ends_free (tl t) -> fin_latest durA earr (skipn (S idx) t) ->
+  d_change (a_dem (hd target t)) = 0 -> simple_demand (a_dem target) ->
+  time_feasible_g durD edep t = true -> load_feasible (v_cap v) t = true ->
+  eval_activity_g durD durA edep earr v t idx target = None ->
+  feasible_t (idur dur) [(e, d)] v (insert_after t idx target) = true.
+Proof. exact rt1_insertion_sound_physical. Qed.
+
+(* non-vacuity: reserved time [60, 70), the accepted candidate's service (55 .. 73) is interrupted by it *)
+Theorem C06_rt_nonvacuous :
+  let dur := wdur (tw_w nv_rt_world) in
+  let durD := durD_rt (idur dur) (rt1 50 60 10) 0 in let durA := durA_rt (idur dur) (rt1 50 60 10) 0 in
+  let edep := edep_rt (rt1 50 60 10) 0 in let earr := earr_rt (rt1 50 60 10) 0 in
+  let t := nv_rt_tour in let target := nv_rt_target in
+  (forall f t, 0 <= dur f t) /\ (S 0 < length t)%nat /\ sched_ok_gt durD edep t /\ R1 60 10 (a_dep (hd target t)) /\
+  Forall (WF1 60 10) (tl t) /\ WF1 60 10 target /\ ends_free (tl t) /\ fin_latest durA earr (skipn 1 t) /\
+  d_change (a_dem (hd target t)) = 0 /\ simple_demand (a_dem target) /\
+  time_feasible_g durD edep t = true /\ load_feasible (v_cap (w_veh (tw_w nv_rt_world))) t = true /\
+  eval_activity_g durD durA edep earr (w_veh (tw_w nv_rt_world)) t 0 target = None /\
+  sched_out (reschedule_g durD edep (insert_after t 0 target)) = [(0, 0); (5, 73); (88, 93); (106, 106)].
+Proof. exact rt_nonvacuous. Qed.
+
+(* FINDING C06-F5, first form: `fin_latest` is needed.  The reserved time [8, 48) is running when the candidate's window opens at 15
+   and still when it closes at 46: estimate_departure answers Float::MAX; the latest arrival of the next stop is unbounded and
+   MAX > MAX is false: accepted, the refreshed schedule holds Float::MAX, the simulation finds the service starting at 48 *)
+Theorem C06_rt_unbounded_next_refuted :
+  let x := rtw_world None INF [mkRS 0 8 40] in
+  let t := build_tour_t x [(1, 1, 0, 0, INF, dzero)] in
+  let a := mkAct 9 0 12 15 46 dzero 0 0 in
+  tw_feasible x t = true /\ tw_accepts x t 0 a = true /\ tw_feasible x (insert_after t 0 a) = false /\
+  sched_out (reschedule_g (tw_durD x) (tw_edep x) (insert_after t 0 a)) = [(0, 0); (0, INF); (INF, INF)] /\
+  times_t (tw_idur x) (tw_breaks x) 0 0 (tl (insert_after t 0 a)) = [(0, 48, 60); (73, 73, 73)].
+Proof. exact rt_unbounded_next_unsound_witness. Qed.
+
+(* FINDING C06-F5, second form: the last stop of an OPEN tour is accepted without asking estimate_departure at all *)
+Theorem C06_rt_open_end_refuted :
+  let x := rtw_world None INF [mkRS 0 8 10] in
+  let t := build_tour_t x [] in
+  let a := mkAct 9 2 0 10 15 dzero 0 0 in
+  tw_feasible x t = true /\ tw_accepts x t 0 a = true /\ tw_feasible x (insert_after t 0 a) = false /\
+  sched_out (reschedule_g (tw_durD x) (tw_edep x) (insert_after t 0 a)) = [(0, 0); (5, INF)] /\
+  times_t (tw_idur x) (tw_breaks x) 0 0 (tl (insert_after t 0 a)) = [(5, 18, 18)].
+Proof. exact rt_open_end_unsound_witness. Qed.
+
+(* FINDING C06-F6: with TWO reserved times the statement is false of the code: the lookup answers one reserved time per query *)
+Theorem C06_rt_two_breaks_refuted :
+  let x := rtw_world (Some 0) 406 [mkRS 7 7 5; mkRS 32 32 40] in
+  let t := build_tour_t x [] in
+  let a := mkAct 9 0 0 40 56 dzero 0 0 in
+  tw_feasible x t = true /\ tw_accepts x t 0 a = true /\ tw_feasible x (insert_after t 0 a) = false /\
+  sched_out (reschedule_g (tw_durD x) (tw_edep x) (insert_after t 0 a)) = [(0, 0); (0, 40); (80, 80)] /\
+  times_t (tw_idur x) (tw_breaks x) 0 0 (tl (insert_after t 0 a)) = [(0, 72, 72); (72, 72, 72)].
+Proof. exact rt_two_breaks_unsound_witness. Qed.
+
+(* the push-forward test is NOT exact with a reserved time, only conservative: stop 1 may be left at 82 (depot reached at 95, when
+   the reserved time [95, 105) begins; shift end 100), the cached latest arrival is 77.  No finding: required breaks are not among
+   the constraints the completeness clause of the property lists (time windows, shift times, capacity) *)
+Theorem C06_rt_latest_arrival_exact_refuted :
+  let x := rtw_world (Some 0) 100 [mkRS 90 95 10] in
+  let t := build_tour_t x [(1, 1, 0, 0, INF, dzero)] in
+  latest_states_g (tw_durA x) (tw_earr x) t = [0; 77] /\
+  sim_g (tw_durD x) (tw_edep x) 1 82 (skipn 2 t) = true /\
+  sim_t (tw_idur x) (tw_breaks x) 1 82 (skipn 2 t) = true /\
+  fwd (tw_durD x) 1 0 82 = 95.
+Proof. exact rt_latest_conservative_witness. Qed.
+
+(* the tie that WF1 excludes: a stop without service whose window [20, 25] opens exactly when the reserved time [20, 30) begins is
+   reached exactly at 20: accepted, its departure in the refreshed schedule is Float::MAX, yet the physical simulation finds the tour
+   feasible (no violation of the property; the schedule is unusable all the same) *)
+Theorem C06_rt_tie_witness :
+  let x := rtw_world (Some 0) 1000 [mkRS 20 20 10] in
+  let t := build_tour_t x [(1, 1, 0, 20, 25, dzero)] in
+  let a := mkAct 9 2 0 0 INF dzero 0 0 in
+  latest_states_g (tw_durA x) (tw_earr x) t = [0; 20] /\ tw_accepts x t 0 a = true /\
+  tw_feasible x (insert_after t 0 a) = true /\
+  sched_out (reschedule_g (tw_durD x) (tw_edep x) (insert_after t 0 a)) = [(0, 0); (5, 5); (20, INF); (INF, INF)].
+Proof. exact rt_tie_witness. Qed.
+
+(* ---------------- locks with order `sequence` / `any` ---------------- *)
+(* locked_jobs.rs builds a positional Rule for `strict` locks only (C06_strict_lock_insertion_sound); the jobs of a `sequence` / `any`
+   lock are bound to their vehicle by the route-level condition alone.  Their ORDER in the tour is safe for a structural reason:
+   no insertion (single activity or the placement of a multi job; accepted or not) reorders the activities already in the tour *)
+Theorem C06_sequence_lock_order_preserved :
+  (forall jobs t idx x, existsb (Z.eqb (a_job x)) jobs = false -> served_of jobs (insert_after t idx x) = served_of jobs t) /\
+  (forall jobs st t, Forall (fun s => existsb (Z.eqb (a_job (snd s))) jobs = false) st ->
+     served_of jobs (insert_all t st) = served_of jobs t).
+Proof. exact (conj insertion_keeps_locked_order placement_keeps_locked_order). Qed.
+
+(* an Offset reserved time (time offset from the tour's departure `off`) is answered exactly like the Window reserved time shifted
+   by `off`: the reserved-time theorems above cover both kinds of spans *)
+Theorem C06_rt_offset_is_shifted_window : forall s e d off a b,
+  0 <= e -> 0 <= off -> off <= a -> a < INF -> b < INF ->
+  rt_fn (mkRT true [mkRS s e d]) off a b = rt_fn (mkRT false [mkRS (s + off) (e + off) d]) 0 a b.
+Proof. exact rt_fn_offset_shift. Qed.
